@@ -506,6 +506,11 @@ func (ro *RedisOutput) sendRdb(pctx context.Context, reader ChannelReader) error
 					return e.Err
 				}
 				if e.Done {
+					// the parser stops at the first EOF opcode it meets : in a damaged snapshot that can be a
+					// data byte followed by zeros ("no checksum"), with the rest of the snapshot unread
+					if rByte := readBytes.Load(); rByte != nsize {
+						return errors.Join(pkgCommon.ErrCorrupted, fmt.Errorf("rdb ends at byte %d of %d", rByte, nsize))
+					}
 					fullDone.Store(true)
 					return nil
 				}
